@@ -65,6 +65,11 @@ CHECKS = {
    text="TLC explores all histories (<=4/5 ops) over the argument palette {-1,0,n-1,n,n+5} x {0, existing, new frequency} checking the partitions and that standard channels only change `enabled`; seeded histories of up to 30 Add/Disable/Enable calls with arbitrary ints on all 14 bands are recorded with the full projection (every channel, five index lists, lookups) after every call and TLC steps the model alongside, demanding equality, the partitions on the observed lists, errors (never panics) for bad indices, matching lookups, the CFList rule per protocol version, and that CFLists, RX2/ping-slot/beacon frequencies and channels encode into join-accepts/MAC commands and decode back.",
    note="Trusted: TLC, ChannelPlan.tla, MACCommands/Frame tables, snapshot hook. Known finding: ISM2400 frequencies are not encodable outside NewChannelReq.",
    ref="3/C15"),
+ "C20": dict(
+   technique="GPS/UTC conversion with the published leap-second list, exact-rational Semtech airtime formula (BigNat) and EIRP table in TLA+; identities model-checked by TLC around every leap second; recorded conversions / full payload sweeps / EIRP results validated by TLC",
+   text="TLC checks on the specification (every leap second, seconds -3..+3, sub-second values) that UTC->GPS->UTC is the identity, GPS->UTC->GPS is the identity outside inserted leap seconds, the mapping is strictly increasing and the offset steps at 00:00:00; the real conversions for instants dense around all 18 leap seconds (and non-leap June/December ends) and random in 1980..2100, their inverses and ordered pairs are validated against it; airtime is recorded as whole payload sweeps 0..255 for SF 5..12 x 5 bandwidths x CR x header x LDRO x preamble {0,8,64} (0..64 thorough): symbol counts must be exact, durations within the truncation tolerance of the exact rational formula, and non-decreasing; EIRP index/decoding for all half-integral powers 8..40, random finite float32 >= 8 and all 256 indices.",
+   note="Trusted: TLC, Misc.tla/BigNat.tla, harness integer splitting of int64 values.",
+   ref="3/C20"),
  "C07": dict(
    technique="TLA+ table-driven MAC-command/registry specification; TLC enumerates values and registration histories (replayed on the real code) and validates recorded traces",
    text="TLC exhaustively explores the MAC-command tables (all values of <=1/2-byte payloads, boundary palettes for longer ones) and all registration histories of the Registry model (self-delimiting, direction-only invariants); every explored value/history is executed on the real library (histories in fresh processes) and, with seeded full-domain values and command streams, validated event by event against the trace specifications.",
